@@ -51,6 +51,7 @@ type Obligation struct {
 	Src     string   // source text of the clause / site
 	Pos     string
 	Observe []obsTerm // terms to read from a model
+	ctx     *Ctx
 	// results
 	Status  string // proved | failed | unknown | vacuous
 	Solver  string
